@@ -194,3 +194,35 @@ PROPS["C05"] = {
         {"engine": "netw", "test": "TestC05", "quick": {"shards": 16, "checks": 120, "timeout": 600, "shrinktime": "30s"}, "thorough": {"shards": 16, "checks": 4000, "timeout": 3400, "shrinktime": "120s"}},
     ],
 }
+
+PROPS["C15"] = {
+    "level": "exploration",
+    "rule": ("Scenario = location (rewrite none | /api/*:/$1 | /rest/*/user/*:/$1/$2; 0-3 added request headers / response headers / query parameters, some colliding with client names), upstream Accept-Encoding set or not, "
+             "2-7 requests over a cacheable and an uncacheable key: methods GET/HEAD/POST/PUT/PATCH/DELETE/OPTIONS, bodies 0-64 KiB, 0-5 custom headers (multi-valued), queries (order, repeats, encoded bytes, empty values), "
+             "conditional (If-None-Match match/miss/*, If-Modified-Since before/after) and Range (prefix/suffix/open) headers on cold, hit and hit-for-pass keys; a final plain GET by another client on every key. "
+             "Oracle = upstream log vs client request (method, body, reference rewrite, query multiset, headers, Accept-Encoding, conditionals withheld only on a fetching request), client gets 304 when its validator matches, "
+             "configured response headers added, and no 304/206 is ever replayed to the final plain GET. Non-trivial = >=2 of {rewrite, added header, added query, accept-encoding override, conditional/Range}."),
+    "assumptions": _NETW_ASSUME + ["the harness upstream answers validators and ranges correctly (http.ServeContent)", "X-Forwarded-For and hop-by-hop header handling of the reverse proxy are not counted as changes"],
+    "jobs": [{"engine": "netw", "test": "TestC15", "quick": {"shards": 16, "checks": 150, "timeout": 600, "shrinktime": "30s"}, "thorough": {"shards": 16, "checks": 6000, "timeout": 3400, "shrinktime": "120s"}}],
+}
+PROPS["C19"] = {
+    "level": "fault_enumeration",
+    "rule": ("Scenario = 1-4 harness upstream servers (each primary or backup, initially up or down), policy {unset, roundRobin, random, first, leastconn}, TCP or HTTP health check, 3-10 up/down flips. After each flip the harness calls the exported "
+             "DoHealthCheck() (the function the periodic checker runs) and sends 3n+1 sequential uncacheable requests. Oracle per settle: only up servers answer, backups only when no primary is up, roundRobin counts differ by <= 1, nobody up -> 5xx within 10 s and nothing logged upstream, traffic flows again after recovery. "
+             "TestC19Unforced waits for the real 5 s checker instead (2 variants). Non-trivial = a backup-only phase AND an all-down phase AND a recovery after it."),
+    "assumptions": _NETW_ASSUME + ["the settle time between events is replaced by a forced DoHealthCheck call; the unforced variant allows 30 s for recovery"],
+    "jobs": [
+        {"engine": "netw", "test": "TestC19", "quick": {"shards": 16, "checks": 25, "timeout": 600, "shrinktime": "20s"}, "thorough": {"shards": 16, "checks": 1500, "timeout": 3400, "shrinktime": "60s"}},
+        {"engine": "netw", "test": "TestC19Unforced", "rapid": False, "quick": {"shards": 1, "timeout": 300}, "thorough": {"shards": 4, "timeout": 600}},
+    ],
+}
+PROPS["C20"] = {
+    "level": "exploration",
+    "rule": ("Workload phase = 30-120 free-running client goroutines for 2 s (thorough 5 s) on 4-60 keys (hot/cold mix, cacheable with lifetime 1 s / uncacheable with hit-for-pass 1 s, cache of 64 entries), Accept-Encoding and If-None-Match mixes, POSTs, "
+             "purges every 0/5/20/100 ms, reloads (the main.update call sequence alternating compress levels, thresholds, filters, location headers) every 0/50/150/400 ms, optional burst->silence past expiry->burst pattern. Built with -race. "
+             "Oracle = zero race-detector reports with a pike/elton frame, every response 200 (or 304 for a matching validator) and byte-equal to what the upstream produces for its own key, acceptable Content-Encoding. "
+             "evaluations = requests sent; non-trivial phase = hits, fetches and passes all occurred and purges or reloads ran. Statistical: it can show races, not their absence."),
+    "assumptions": _NETW_ASSUME + ["Go race detector (halt_on_error=0, log parsed by the test)", "schedules are whatever the runtime produces under load; nothing is replayable except the workload parameters"],
+    "jobs": [{"engine": "netw", "race": True, "test": "TestC20", "solo": True, "env": {"GORACE": "log_path={cwd}/race halt_on_error=0", "VERIF_RACE_LOG": "{cwd}/race"},
+              "quick": {"shards": 1, "checks": 4, "timeout": 600, "shrinktime": "1s"}, "thorough": {"shards": 1, "checks": 60, "timeout": 3400, "shrinktime": "1s"}}],
+}
